@@ -45,6 +45,20 @@ func (u *c9MatrixUpstream) IsMatrix() bool { return true }
 
 func c9MetGen(r *h.Rng) *c9MetCase {
 	streams := genSemStreams(r)
+	{
+		// the writer derives the fingerprint from the label set (C04 `fp_perm`): two streams never share one
+		// (`SeriesStoreOk.fpOfLabels`); the generator of C08 may draw the same labels twice
+		seen := map[string]bool{}
+		var uniq []semStream
+		for _, st := range streams {
+			k := semDoc(st.Labels)
+			if !seen[k] {
+				seen[k] = true
+				uniq = append(uniq, st)
+			}
+		}
+		streams = uniq
+	}
 	selFull := genSemSelector(r, streams, false)
 	matchers := selFull[:strings.Index(selFull, "}")+1]
 	grouping := func() string {
